@@ -60,18 +60,38 @@ common = {"src": "h1_tree.c", "env": ENV, "tus": TUS, "unwind": 6,
                         "insertNode", "KSI_TreeNode_join", "joinHashes", "KSI_DataHasher_addTreeNode", "KSI_TreeNode_new", "calculateHighestLevel",
                         "levelWithOverhead", "KSI_TreeBuilder_close", "KSI_TreeLeafHandle_getAggregationChain", "getHashChainLinks", "KSI_TreeNode_free"]}
 
+B_H1 = ("trees of 1..4 leaves (thorough 1..8), each leaf a SHA-1 imprint or a 4-byte metadata value as enumerated per instance, inner nodes SHA-1 or SHA2-256; "
+        "symbolic: every leaf level 0..255, maxTreeLevel (any short), all digest / payload bytes, all digests returned by the hash model")
+B_H2A = ("1..3 accepted leaves (thorough up to 7) followed by one leaf the reference refuses; all levels symbolic, maxTreeLevel symbolic / none / 1..255 per instance; "
+         "the run ends after the refused add")
+B_H2B = ("concrete level vectors per instance (refusal at carry depth 0, 1 (thorough 2), by a concrete maxTreeLevel, with metadata), digests symbolic; "
+         "the run continues after the refusal: more leaves, close, chains of all accepted leaves")
 plan = {
  "property": "C16",
- "outside": "",
- "assumptions": [],
- "manifest": {"claimed": True, "level_text": "", "level_note": ""},
+ "outside": ("KSI_BlockSignerHandle_getSignature / KSI_BlockSigner_closeAndSign (need a server reply and the signature builder / parser); the block signer's leaf processors "
+             "(blocksigner.c) unless a h3_* harness is listed below; types.c's own KSI_MetaData serializer (metadata leaves are harness objects implementing the same two callbacks); "
+             "trees of more than 8 leaves; KSI_TreeBuilder_free; allocation failure (C19)"),
+ "assumptions": ["hash function = memoising model: equal (algorithm, message) -> equal digest, different message -> different digest by ASSUME (collision-freeness is an explicit assumption)",
+                 "while the reference model says an operation must succeed, every error exit of tree_builder.c is reported as a failed check and the path is cut there "
+                 "(env/ctx_expect.c for KSI_pushError exits, common/c16_instr.h for `res = KSI_INVALID_STATE / KSI_INVALID_ARGUMENT` exits); no condition or value of the analysed text changes",
+                 "KSI_MetaData_ref/free and KSI_MetaDataElement_ref/free re-stated from types.c (env/metadata_obj.c)",
+                 "indirect call in KSI_List_free restricted to {KSI_HashChainLink_free, KSI_TlvElement_free} with the proof obligation inserted by goto-instrument"],
+ "manifest": {"claimed": True,
+  "level_text": ("For every tree shape in the bound and ALL leaf levels 0..255, maxTreeLevel values and digest bytes, the SAT solver shows on the real tree_builder.c: a leaf the reference "
+                 "(binary-counter forest, level = max+1) accepts is accepted; after KSI_TreeBuilder_close root hash and level equal the reference left-to-right merge, and for every leaf the chain from "
+                 "KSI_TreeLeafHandle_getAggregationChain, folded by the harness' own chain formula (H(left||right||level), level += correction+1) from the leaf's value and level, ends at exactly the root; "
+                 "close fails iff the root level would leave 0..255; a leaf beyond maxTreeLevel or whose carry joins exceed 255 is refused with CBMC's pointer / double-free checks on, and (concrete level "
+                 "scenarios) the accepted leaves keep valid chains afterwards."),
+  "level_note": ("Bounded: <= 4 leaves quick, <= 8 thorough.  Hash model with assumed collision-freeness; the 'every message of the reference was hashed by the builder' check is syntactic on the model's record table.  "
+                 "Error exits are observed-and-cut while success is expected (see assumptions).  What happens after a refusal is checked for concrete level vectors only (a symbolic refusal leaves a merged state CBMC "
+                 "cannot carry on with).  Block signer: only what h3_* harnesses state; getSignature is outside.  Until F12 is fixed in /repo the check reports it (FINDINGS.md).")},
  "harnesses": [
   dict(common, name="h1_tree", global_defines=["HM_LOG_MAX=72", "HM_REC_MAX=8"],
-       bound="", instances=h1_quick, thorough={"instances": h1_thorough, "timeout": 1800}),
+       bound=B_H1, instances=h1_quick, thorough={"instances": h1_thorough, "timeout": 1800}),
   dict(common, name="h2a_refuse", global_defines=["HM_LOG_MAX=72", "HM_REC_MAX=8"],
-       bound="", instances=h2a_quick, thorough={"instances": h2a_thorough, "timeout": 1800}),
+       bound=B_H2A, instances=h2a_quick, thorough={"instances": h2a_thorough, "timeout": 1800}),
   dict(common, name="h2b_after", global_defines=["HM_LOG_MAX=72", "HM_REC_MAX=8"],
-       bound="", instances=h2b_quick, thorough={"instances": h2b_thorough, "timeout": 1800}),
+       bound=B_H2B, instances=h2b_quick, thorough={"instances": h2b_thorough, "timeout": 1800}),
  ]}
 json.dump(plan, open(os.path.join(HERE, "plan.json"), "w"), indent=1)
 print("wrote plan.json:", sum(len(h.get("instances", [1])) for h in plan["harnesses"]), "quick instances")
